@@ -10,6 +10,7 @@
 From Coq Require Import List ZArith NArith String Bool Lia.
 From SCC Require Import Base.Sexp Lang.SynUtil Lang.FunSyn Lang.FunTy Lang.CoreSyn.
 From SCC Require Import Sem.AxSem Sem.FunSem Model.Fun2Core Proof.Fun2CoreProof Proof.Fun2CoreTfv.
+From SCC Require Export Model.Fun2CoreGuard.
 Import ListNotations.
 Open Scope string_scope.
 Open Scope list_scope.
@@ -123,47 +124,6 @@ Proof.
 Qed.
 
 (* ---------- names of a source term ---------- *)
-Definition cl_names (c : fclause) : list string := match c with FClause _ _ _ ctx _ => fvars ctx end.
-Fixpoint nm (t : fterm) : list string :=
-  match t with
-  | FVar v _ _ => [v]
-  | FLit _ => []
-  | FOp a _ b => nm a ++ nm b
-  | FIfC _ a b t1 t2 _ => nm a ++ (match b with Some b' => nm b' | None => [] end) ++ nm t1 ++ nm t2
-  | FPrint _ a next _ => nm a ++ nm next
-  | FLet v _ bound body _ => v :: nm bound ++ nm body
-  | FCall _ args _ => flat_map nm args
-  | FCtor _ args _ => flat_map nm args
-  | FDtor scrut _ _ args _ => nm scrut ++ flat_map nm args
-  | FCase scrut _ cls _ =>
-      nm scrut ++ flat_map (fun c => match c with FClause _ _ _ ctx body => fvars ctx ++ nm body end) cls
-  | FNew cls _ => flat_map (fun c => match c with FClause _ _ _ ctx body => fvars ctx ++ nm body end) cls
-  | FLabel l t' _ => l :: nm t'
-  | FGoto l t' _ => l :: nm t'
-  | FExit a _ => nm a
-  | FParen t' => nm t'
-  end.
-Fixpoint bnd (t : fterm) : list string :=
-  match t with
-  | FVar _ _ _ | FLit _ => []
-  | FOp a _ b => bnd a ++ bnd b
-  | FIfC _ a b t1 t2 _ => bnd a ++ (match b with Some b' => bnd b' | None => [] end) ++ bnd t1 ++ bnd t2
-  | FPrint _ a next _ => bnd a ++ bnd next
-  | FLet v _ bound body _ => v :: bnd bound ++ bnd body
-  | FCall _ args _ => flat_map bnd args
-  | FCtor _ args _ => flat_map bnd args
-  | FDtor scrut _ _ args _ => bnd scrut ++ flat_map bnd args
-  | FCase scrut _ cls _ =>
-      bnd scrut ++ flat_map (fun c => match c with FClause _ _ _ ctx body => fvars ctx ++ bnd body end) cls
-  | FNew cls _ => flat_map (fun c => match c with FClause _ _ _ ctx body => fvars ctx ++ bnd body end) cls
-  | FLabel l t' _ => l :: bnd t'
-  | FGoto _ t' _ => bnd t'
-  | FExit a _ => bnd a
-  | FParen t' => bnd t'
-  end.
-Definition cl_nm (c : fclause) : list string := match c with FClause _ _ _ ctx body => fvars ctx ++ nm body end.
-Definition cl_bnd (c : fclause) : list string := match c with FClause _ _ _ ctx body => fvars ctx ++ bnd body end.
-
 Lemma bnd_nm : forall t, incl (bnd t) (nm t).
 Proof.
   induction t using fterm_ind'; simpl; intros z Hx; try contradiction.
@@ -363,8 +323,6 @@ Proof.
 Qed.
 
 (* ---------- scopes: a list of Core bindings, first match by name ---------- *)
-Definition gl (G : list cbinding) (x : cident) : option cbinding :=
-  find (fun b => cident_eqb (cbvar b) x) G.
 Lemma gl_cons : forall b0 G x, gl (b0 :: G) x = if cident_eqb (cbvar b0) x then Some b0 else gl G x.
 Proof. reflexivity. Qed.
 Lemma gl_name : forall G x b, gl G x = Some b -> cbvar b = x.
@@ -379,15 +337,6 @@ Proof.
   - destruct (IH _ _ _ H) as [H1|H1]; [left; right; exact H1 | right; exact H1].
 Qed.
 
-Definition var_ok (G : list cbinding) (v : fname) (ty : option fty) (chi : cchi) : bool :=
-  match ty with
-  | Some ty0 =>
-      match gl G (new_id v) with
-      | Some b => cbinding_eqb b (mkcb (new_id v) chi (compile_ty ty0))
-      | None => false
-      end
-  | None => false
-  end.
 Lemma var_ok_inv : forall G v ty chi, var_ok G v ty chi = true ->
   exists ty0, ty = Some ty0 /\ gl G (new_id v) = Some (mkcb (new_id v) chi (compile_ty ty0)).
 Proof.
@@ -395,43 +344,6 @@ Proof.
   destruct (gl G (new_id v)) as [b|] eqn:E; [|discriminate]. apply cbinding_eqb_eq in H. subst b. eauto.
 Qed.
 
-Definition is_cns_var (t : fterm) : bool := match t with FVar _ _ (Some FCns) => true | _ => false end.
-
-(* well-scopedness with kinds and types: every occurrence of a name carries the chirality and the
-   (compiled) type of the binding in scope *)
-Fixpoint ws (G : list cbinding) (t : fterm) : bool :=
-  let ws_arg := fun (y : fterm) =>
-    match y with
-    | FVar v ty (Some FCns) => var_ok G v ty CCns
-    | _ => ws G y
-    end in
-  let ws_cls := fun (c : fclause) =>
-    match c with FClause _ _ _ ctx body => ws (compile_ctx ctx ++ G) body end in
-  match t with
-  | FVar v ty _ => var_ok G v ty CPrd
-  | FLit _ => true
-  | FOp a _ b => ws G a && ws G b
-  | FIfC _ a b t1 t2 _ => ws G a && (match b with Some b' => ws G b' | None => true end) && ws G t1 && ws G t2
-  | FPrint _ a next _ => ws G a && ws G next
-  | FLet v vty bound body _ => ws G bound && ws (mkcb (new_id v) CPrd (compile_ty vty) :: G) body
-  | FCall _ args _ => forallb ws_arg args
-  | FCtor _ args _ => forallb ws_arg args
-  | FDtor scrut _ _ args _ => ws G scrut && forallb ws_arg args
-  | FCase scrut _ cls _ => ws G scrut && forallb ws_cls cls
-  | FNew cls _ => forallb ws_cls cls
-  | FLabel l t' ty =>
-      match ty with Some ty0 => ws (mkcb (new_id l) CCns (compile_ty ty0) :: G) t' | None => false end
-  | FGoto l t' _ => var_ok G l (fterm_type t') CCns && ws G t'
-  | FExit a _ => ws G a
-  | FParen t' => ws G t'
-  end.
-Definition ws_arg (G : list cbinding) (y : fterm) : bool :=
-  match y with
-  | FVar v ty (Some FCns) => var_ok G v ty CCns
-  | _ => ws G y
-  end.
-
-Definition disj (a b : list string) : bool := negb (inter_nonempty a b).
 Lemma disj_spec : forall a b, disj a b = true -> forall x, In x a -> In x b -> False.
 Proof.
   intros a b H x Ha Hb. unfold disj, inter_nonempty in H. apply negb_true_iff in H.
@@ -439,75 +351,8 @@ Proof.
   apply existsb_exists. exists x. split; [exact Ha | apply mem_In; exact Hb].
 Qed.
 
-(* the capture guard: wherever the translation places a continuation built from a term u under the
-   binders of a term t (let-bound term / case scrutinee / labelled term), the binders of t are
-   distinct from all names of u.  (Implied by the Barendregt condition on well-scoped definitions.) *)
-Fixpoint nocap (t : fterm) : bool :=
-  match t with
-  | FVar _ _ _ | FLit _ => true
-  | FOp a _ b => nocap a && nocap b
-  | FIfC _ a b t1 t2 _ => nocap a && (match b with Some b' => nocap b' | None => true end) && nocap t1 && nocap t2
-  | FPrint _ a next _ => nocap a && nocap next
-  | FLet v _ bound body _ => disj (bnd bound) (v :: nm body) && nocap bound && nocap body
-  | FCall _ args _ => forallb nocap args
-  | FCtor _ args _ => forallb nocap args
-  | FDtor scrut _ _ args _ => disj (bnd scrut) (flat_map nm args) && nocap scrut && forallb nocap args
-  | FCase scrut _ cls _ =>
-      disj (bnd scrut) (flat_map cl_nm cls) && nocap scrut
-      && forallb (fun c => match c with FClause _ _ _ _ body => nocap body end) cls
-  | FNew cls _ => forallb (fun c => match c with FClause _ _ _ _ body => nocap body end) cls
-  | FLabel l t' _ => negb (mem l (bnd t')) && nocap t'
-  | FGoto l t' _ => negb (mem l (bnd t')) && nocap t'
-  | FExit a _ => nocap a
-  | FParen t' => nocap t'
-  end.
-
 Section Frag.
   Variable p : fcprog.
-  Definition data_ty (ty : option fty) : bool :=
-    match ty with Some t => negb (f_is_codata p t) | None => false end.
-
-  (* the fragment for which the simulation is proved: everything except codata (new, destructor
-     calls, codata-typed let-bindings and arguments: the by-name part of the language) and calls of
-     `main` (mis-translated, see the finding call-to-main) *)
-  Definition arg_chi (y : fterm) : fchi := match y with FVar _ _ (Some FCns) => FCns | _ => FPrd end.
-  (* the kinds of the arguments of a call are those of the callee's parameters *)
-  Definition call_kinds (f : fname) (args : list fterm) : bool :=
-    match ffind_def p f with
-    | Some d => list_eqb fchi_eqb (map arg_chi args) (map fbchi (fdctx d))
-    | None => true
-    end.
-  Fixpoint frag (t : fterm) : bool :=
-    let arg_ok := fun (y : fterm) =>
-      match y with
-      | FVar _ _ (Some FCns) => true
-      | _ => frag y && data_ty (fterm_type y)
-      end in
-    match t with
-    | FVar _ _ _ | FLit _ => true
-    | FOp a _ b => frag a && frag b
-    | FIfC _ a b t1 t2 _ => frag a && (match b with Some b' => frag b' | None => true end) && frag t1 && frag t2
-    | FPrint _ a next _ => frag a && frag next
-    | FLet _ vty bound body _ => negb (f_is_codata p vty) && frag bound && frag body
-    | FCall f args _ => negb (String.eqb f "main") && call_kinds f args && forallb arg_ok args
-    | FCtor _ args _ => forallb (fun y => negb (is_cns_var y)) args && forallb arg_ok args
-    | FCase scrut _ cls _ =>
-        frag scrut && data_ty (fterm_type scrut)
-        && forallb (fun c => match c with FClause _ _ names ctx body =>
-                                list_eqb String.eqb names (fvars ctx)
-                                && forallb (fun b => fchi_eqb (fbchi b) FPrd) ctx && frag body end) cls
-    | FLabel _ t' ty => data_ty ty && frag t'
-    | FGoto _ t' _ => frag t'
-    | FExit a _ => frag a
-    | FParen t' => frag t'
-    | FDtor _ _ _ _ _ | FNew _ _ => false
-    end.
-  Definition arg_ok (y : fterm) : bool :=
-    match y with
-    | FVar _ _ (Some FCns) => true
-    | _ => frag y && data_ty (fterm_type y)
-    end.
-
   Definition codata_of : list ctydecl := map compile_codata (fcpcodata p).
   Lemma ty_is_codata_compile : forall ty, ty_is_codata codata_of (compile_ty ty) = f_is_codata p ty.
   Proof.
